@@ -844,6 +844,16 @@ class BTreeSet(BTree, Generic[KT], MutableSet[KT]):
         super().__init__(t=t, original=original)
         self.in_order = in_order
 
+    @classmethod
+    def _from_iterable(cls, it):
+        # The Set mixin methods (e.g. __and__(), __sub__(), and so __iand__())
+        # build their results with this, and by default it calls cls(it), which
+        # our keyword-only constructor does not support.
+        s = cls()
+        for value in it:
+            s.add(value)
+        return s
+
     def __contains__(self, x: object) -> bool:
         return self.get_element(x) is not None
 
